@@ -20,12 +20,39 @@ func c11exec(j run.Job, a *run.Acc) {
 	r := rand.New(rand.NewSource(j.Seed))
 	for it := 0; it < j.N; it++ {
 		k := r.Intn(7)
+		// scale: one set in 90 has many files (the table of a set crosses 16, 32, 64, 256 entries), one in 90 contains a
+		// long file (hundreds to 70000 bytes: thousands of lines, or lines thousands of columns long)
+		scale := r.Intn(90)
+		if scale >= 3 {
+			scale = scale%2 + 2
+		}
+		if scale == 0 {
+			k = []int{15, 16, 17, 18, 31, 33, 40, 64, 65, 100, 255, 257, 300}[r.Intn(13)]
+		}
+		longAt := -1
+		if scale == 1 && k > 0 {
+			longAt = r.Intn(k)
+		}
 		var raws [][]byte
 		for i := 0; i < k; i++ {
 			var b []byte
 			if r.Intn(5) != 0 { // empty files are common
 				for n := r.Intn(12); n > 0; n-- {
 					b = append(b, c11alpha[r.Intn(len(c11alpha))]...)
+				}
+			}
+			if i == longAt {
+				n := []int{300, 300, 300, 1000, 1000, 5000}[r.Intn(6)]
+				if r.Intn(40) == 0 {
+					n = 70000
+				}
+				lineEvery := []int{1, 2, 7, 300, 5000, 1 << 30}[r.Intn(6)]
+				for q := 0; q < n; q++ {
+					if q%lineEvery == lineEvery-1 {
+						b = append(b, []string{"\n", "\r\n", "\n", "\r"}[r.Intn(4)]...)
+					} else {
+						b = append(b, c11alpha[r.Intn(len(c11alpha))]...)
+					}
 				}
 			}
 			raws = append(raws, b)
@@ -97,6 +124,14 @@ func c11exec(j run.Job, a *run.Acc) {
 			return m
 		}
 		a.Count("file sets", 1)
+		if scale == 0 {
+			a.Count("file sets with 15-300 files", 1)
+		}
+		if longAt >= 0 {
+			a.Count("file sets with a long file (300-70000 pieces)", 1)
+			a.SetMax("bytes of one file", int64(len(raws[longAt])))
+		}
+		a.SetMax("files in one set", int64(len(raws)))
 		exp := map[int]string{}
 		owner := map[int]int{}
 		pos := 1
@@ -129,6 +164,7 @@ func c11exec(j run.Job, a *run.Acc) {
 				a.Count("file offsets checked directly", 1)
 				if off < len(c) {
 					if c[off] == '\n' {
+						a.SetMax("lines of one file", int64(line+1))
 						line++
 						col = 1
 					} else {
@@ -223,7 +259,7 @@ func init() {
 		},
 		Exec: c11exec,
 		Finish: func(tier string, a *run.Acc, cov map[string]any) string {
-			cov["rule"] = "case = a file set of 0-6 files (empty files, LF, lone CR, CRLF, CR CR LF, multi-byte runes, no trailing newline), built with NewFileSet(files...) or AddFile, a fifth of them from File objects that were placed in another set before. " +
+			cov["rule"] = "case = a file set of 0-6 files, one set in 90 of 15-300 files, one in 90 with a file of 300-70000 pieces (up to tens of thousands of lines, or lines thousands of columns long) (empty files, LF, lone CR, CRLF, CR CR LF, multi-byte runes, no trailing newline), built with NewFileSet(files...) or AddFile, a fifth of them from File objects that were placed in another set before. " +
 				"Oracle: independent layout base_0=1, base_{i+1}=base_i+len_i+1 on the independently CRLF-normalised content, line/column by counting LFs. Every global position 0..last+3 is queried " +
 				"(name:line:col expected, 'unknown' for 0 and for everything past the last file's EOF position; every EOF position belongs to its file), all renderings of distinct (file, offset) must be distinct; " +
 				"File.Pos, File.Len, File.Position are checked directly for every offset. non-trivial = at least two files; distinct = distinct file contents"
